@@ -311,6 +311,28 @@ class Harness:
         )
         return v.status == "proved"
 
+    def prove_raw(self, facts, goal, label, detail=""):
+        """Discharge a goal against an explicit fact list (used when a proof hides definitions on purpose:
+        dropping facts only weakens the hypotheses, so a `proved` verdict stays sound)."""
+        self.cover(label)
+        v = solve.prove(list(facts), bool_z(goal), generic_inputs=list(self.ctx.inputs.values()))
+        inputs = {}
+        if v.status == "refuted" and v.model is not None:
+            for name, c in self.ctx.inputs.items():
+                inputs[name] = solve.model_value(v.model, c)
+        self.sink.append(Instance(label, dict(self.ctx.cases), v.status, v.backend, v.seconds, inputs, detail or (v.reason if v.status == "unknown" else "")))
+        return v.status == "proved"
+
+    def canary(self, cond, label):
+        """Vacuity guard: `cond` must NOT be provable here (e.g. a bound tighter than the real one)."""
+        if self.mode == "concrete":
+            return True
+        v = solve.prove(self.ctx.all_facts(), bool_z(cond), fallbacks=False)
+        ok = v.status == "refuted"
+        self.sink.append(Instance(label, dict(self.ctx.cases), "proved" if ok else "error", "canary:" + v.backend, v.seconds,
+                                  detail="" if ok else f"canary was expected to be refutable but solver said {v.status}"))
+        return ok
+
     def unreachable(self, label, detail=""):
         return self.prove(False, label, detail)
 
@@ -368,6 +390,28 @@ class Harness:
         if self.mode == "sym":
             return self.interp.trig(x)
         return (math.sin(x), math.cos(x))
+
+    # sound axioms of real sin/cos, instantiated on request (DESIGN 3.2)
+    def trig_sum(self, a, b):
+        """relate trig(a+b) to trig(a), trig(b)"""
+        if self.mode != "sym":
+            return
+        (sa, ca), (sb, cb), (ss, cs) = self.trig(a), self.trig(b), self.trig(a + b)
+        self.ctx.axiom(z3.And(ss.z == sa.z * cb.z + ca.z * sb.z, cs.z == ca.z * cb.z - sa.z * sb.z), "trig.addition")
+
+    def trig_neg(self, a):
+        if self.mode != "sym":
+            return
+        (sa, ca), (sn, cn) = self.trig(a), self.trig(-a)
+        self.ctx.axiom(z3.And(sn.z == -sa.z, cn.z == ca.z), "trig.negation")
+
+    def trig_period(self, a, k=1):
+        if self.mode != "sym":
+            return
+        from .sym import PI as _PI
+
+        (sa, ca), (sp, cp) = self.trig(a), self.trig(a + SReal(2 * k * _PI))
+        self.ctx.axiom(z3.And(sp.z == sa.z, cp.z == ca.z), "trig.period")
 
     @property
     def PI(self):
